@@ -52,6 +52,29 @@ macro_rules! iis {
     };
 }
 
+/// Makes the contents of a Sylt string literal safe inside a Lua "..." literal.
+/// Escape sequences Lua understands are kept, everything else that would stop
+/// the chunk from loading (line breaks, other backslashes) is escaped.
+fn lua_string(s: &str) -> String {
+    let mut out = String::new();
+    let mut chars = s.chars().peekable();
+    while let Some(c) = chars.next() {
+        match c {
+            '\n' => out.push_str("\\n"),
+            '\r' => out.push_str("\\r"),
+            '\\' => match chars.peek() {
+                Some('n' | 't' | 'r' | 'a' | 'b' | 'f' | 'v' | '\\' | '\'') => {
+                    out.push('\\');
+                    out.push(chars.next().unwrap());
+                }
+                _ => out.push_str("\\\\"),
+            },
+            c => out.push(c),
+        }
+    }
+    out
+}
+
 struct Generator<'a, 'b> {
     usage_count: &'a HashMap<Var, usize>,
     out: &'b mut dyn Write,
@@ -115,7 +138,7 @@ impl<'a, 'b> Generator<'a, 'b> {
 
                 IR::Neg(t, a) => ii!(self, t, "(-{})", a),
 
-                IR::Str(t, s) => iis!(self, t, "\"{}\"", s),
+                IR::Str(t, s) => iis!(self, t, "\"{}\"", lua_string(s)),
                 IR::Float(t, f) => iis!(self, t, "{:?}", f),
 
                 IR::Equals(t, a, b) => ii!(self, t, "({} == {})", a, b),
